@@ -23,9 +23,16 @@ def scene(rng, T):
     bts = [{"min_x": "pec", "max_x": "pmc", "min_y": "periodic", "max_y": "periodic", "min_z": "pml", "max_z": "pml"},
            {"min_x": "periodic", "max_x": "periodic", "min_y": "pec", "max_y": "pec", "min_z": "pmc", "max_z": "pml"}]
     def sw():
-        r = rng.random()
-        return None if r < 0.3 else ({"fixed": sorted(rng.sample(range(T), rng.randint(1, T)))} if r < 0.6 else
-                                     {"start_time": rng.randint(0, T // 2), "end_time": rng.randint(T // 2, T), "interval": rng.choice([1, 2])})
+        # every schedule has at least one on-step (a phasor detector that is never on is rejected at placement, by design)
+        while True:
+            r = rng.random()
+            if r < 0.3:
+                return None
+            if r < 0.6:
+                return {"fixed": sorted(rng.sample(range(T), rng.randint(1, T)))}
+            s_, e_, iv = rng.randint(0, T // 2), rng.randint(T // 2, T), rng.choice([1, 2])
+            if any(s_ <= t <= e_ and t % iv == 0 for t in range(T)):
+                return {"start_time": s_, "end_time": e_, "interval": iv}
     return {"shape": [6, 6, 9], "spacing": 5e-8, "steps": T, "bt": rng.choice(bts), "thickness": 2,
             "sources": [{"kind": "plane", "axis": 2, "pos": 4, "dir": "+", "pol": [1.0, 0.5, 0.0], "switch": sw()},
                         {"kind": "dipole", "cell": [3, 3, 5], "pol": 2, "switch": sw()}],
